@@ -27,6 +27,11 @@ if [ -f "$SD/demo.cpp" ]; then
   g++ -std=c++11 -O1 -w -I$S/patched -DMUSCLE_ENABLE_ZLIB_ENCODING $DEFS -I"$SD" "$SD/demo.cpp" $S/lp/lib.a -lz -lutil -lpthread -o $S/demo_patched > $S/dp.log 2>&1
   if [ -x $S/demo_clean ]; then ( cd $S && timeout 120 ./demo_clean > $S/run_clean.txt 2>&1 ); DEMO_CLEAN=$?; else DEMO_CLEAN="build failed"; fi
   if [ -x $S/demo_patched ]; then ( cd $S && timeout 120 ./demo_patched > $S/run_patched.txt 2>&1 ); DEMO_PATCHED=$?; else DEMO_PATCHED="build failed"; fi
+elif [ -f "$SD/demo.c" ]; then
+  CSAN=""; grep -q "fsanitize=address" "$SD/demo.c" && CSAN="-fsanitize=address -g"
+  for w in clean patched; do gcc -O1 -w $CSAN -I$S/$w -I"$SD" "$SD/demo.c" $S/$w/lang/c/minimessage/MiniMessage.c $S/$w/lang/c/minimessage/MiniMessageGateway.c $S/$w/lang/c/micromessage/MicroMessage.c $S/$w/lang/c/micromessage/MicroMessageGateway.c -o $S/demo_$w > $S/d$w.log 2>&1; done
+  if [ -x $S/demo_clean ]; then ( cd $S && timeout 120 ./demo_clean > $S/run_clean.txt 2>&1 ); DEMO_CLEAN=$?; else DEMO_CLEAN="build failed"; fi
+  if [ -x $S/demo_patched ]; then ( cd $S && timeout 120 ./demo_patched > $S/run_patched.txt 2>&1 ); DEMO_PATCHED=$?; else DEMO_PATCHED="build failed"; fi
 elif [ -f "$SD/demo.py" ]; then
   ( cd $S && MUSCLE_WORKTREE=$S/clean timeout 300 python3 "$SD/demo.py" $S/clean > $S/run_clean.txt 2>&1 ); DEMO_CLEAN=$?
   ( cd $S && MUSCLE_WORKTREE=$S/patched timeout 300 python3 "$SD/demo.py" $S/patched > $S/run_patched.txt 2>&1 ); DEMO_PATCHED=$?
